@@ -5,14 +5,14 @@
 # builds, runs `pv <Cnn> --tier <tier>` per variant, prints exit codes, then removes everything.
 # Exit status: 1 if any variant reported a violation (mutant caught), 0 if all silent, 2 otherwise.
 set -u
-name=$1; patch=$2; pid=$3; tier=${4:-quick}; shift; shift; shift; shift || true
+name=$1; patch=$(realpath -m "$2"); pid=$3; tier=${4:-quick}; shift; shift; shift; shift || true
 variants=("$@"); [ ${#variants[@]} -eq 0 ] && variants=(rel)
 D=/tmp/pvmut-$name
 cleanup() { git -C /repo worktree remove --force "$D/repo" >/dev/null 2>&1; rm -rf "$D"; git -C /repo worktree prune; }
 trap cleanup EXIT
 rm -rf "$D"; mkdir -p "$D/out"
 git -C /repo worktree add --detach "$D/repo" HEAD >/dev/null 2>&1 || { echo "worktree failed"; exit 2; }
-if [ "$patch" != "-" ]; then
+if [ "$(basename "$patch")" != "-" ]; then
   git -C "$D/repo" apply "$patch" || { echo "patch does not apply"; exit 2; }
 fi
 rsync -a --exclude target /verif/harness/ "$D/harness/"
@@ -28,7 +28,7 @@ for v in "${variants[@]}"; do
     avx512) prof=release; flags="-C target-cpu=native";;
     *) echo "unknown variant $v"; exit 2;;
   esac
-  ( cd "$D/harness" && RUSTFLAGS="$flags" CONST_RANDOM_SEED=pv-seed-A CARGO_NET_OFFLINE=true cargo build --offline --profile $prof --target-dir "$D/target-$v" 2>&1 | grep -E "^error|Finished" | head -20 )
+  ( cd "$D/harness" && RUSTFLAGS="$flags ${PV_EXTRA_RUSTFLAGS:-}" CONST_RANDOM_SEED=pv-seed-A CARGO_NET_OFFLINE=true cargo build --offline --profile $prof --target-dir "$D/target-$v" 2>&1 | grep -E "^error|Finished" | head -20 )
   bin="$D/target-$v/$prof/pv"
   [ -x "$bin" ] || { echo "[mutant $name] build failed for $v"; worst=2; continue; }
   PV_ROOT="$D/out" PV_VARIANT=$v VERIF_SEED=${VERIF_SEED:-0} "$bin" "$pid" --tier "$tier" ${PV_EXTRA:-} 2>&1 | grep -E "VIOLATION|violation|KNOWN|sub=|INCONCLUSIVE" | head -40
